@@ -998,3 +998,64 @@ def python_traps(rep, prog, qnames, rule="TRAP"):
     if not bad:
         rep.ok(rule, {"file": "-", "line": 0, "function": "(%d functions)" % len(qnames), "construct": "python / numpy traps"},
                "%d candidate sites in the analysed functions, none is one of the known silent traps" % n)
+
+
+def inferred_dtype_stores(rep, S, f, rule="DTYPE.inferred-target"):
+    """`a[i] = v` / `a[i] += v` into an array built by np.array / np.asarray / np.stack ... from run-time data *without* an explicit
+    floating dtype: numpy chose the dtype from what the data happened to be (integer noise draws, boolean masks), and a real-valued
+    v is truncated on assignment without a word.  Arrays from np.zeros / np.empty / np.ones / np.full (float by default) and
+    arrays with dtype=float are fine."""
+    loops = {k: v for k, v in S.loopinfo.items()}
+    INFER = ("numpy.array", "numpy.asarray", "numpy.asanyarray", "numpy.stack", "numpy.vstack", "numpy.hstack", "numpy.column_stack", "numpy.concatenate")
+
+    def root(t, depth=0):
+        while isinstance(t, tuple) and t and depth < 40:
+            depth += 1
+            if t[0] == "store" or t[0] == "mut" or t[0] == "shuffled":
+                t = t[1]
+            elif t[0] == "phi":
+                a, b = root(t[2], depth), root(t[3], depth)
+                return a if a == b else (a if b is None else b if a is None else a)
+            elif t[0] == "mu" and t[1] in loops and t[2] in loops[t[1]]["init"]:
+                t = loops[t[1]]["init"][t[2]]
+            elif t[0] == "method" and t[2] in ("copy", "view") and not t[3]:
+                t = t[1]
+            else:
+                return t
+        return t
+    n = 0
+    hit = False
+    for st in S.select("store", qname=f.qname):
+        r = root(st.base)
+        n += 1
+        if isinstance(r, tuple) and len(r) == 4 and r[0] == "ext" and r[1] in INFER:
+            dt = dict((k, v) for k, v in r[3] if k != "$draw").get("dtype")
+            if dt in FLOAT_TYPES:
+                continue
+            data = [x for x in walk(r[2]) if isinstance(x, tuple) and x and x[0] in ("apply", "param", "self")]
+            val_lossy = not is_const(st.value)
+            if data and val_lossy:
+                hit = True
+                rep.bad(rule, fwhere(f, st.node), "the value is stored into `%s`, whose dtype numpy inferred from the data it was built from (no dtype=float): when that data "
+                        "is integer- or boolean-valued the stored real value is truncated silently" % fmt(r)[:80])
+    return n, hit
+
+
+def dtype_store_sweep(rep, prog, interps, rule="DTYPE.inferred-target"):
+    """inferred_dtype_stores over every function in which one of the check's symbolic interpreters recorded an in-place store"""
+    from ..sym import Sym as _Sym
+    total, any_hit, seen = 0, False, set()
+    for it in interps:
+        if not isinstance(it, _Sym):
+            continue
+        for q in sorted({x.qname for x in it.facts if x.kind == "store"}):
+            f = prog.funcs.get(q)
+            if f is None or f.module.name.startswith("drf") or (id(it), q) in seen:
+                continue
+            seen.add((id(it), q))
+            n, hit = inferred_dtype_stores(rep, it, f, rule)
+            total += n
+            any_hit = any_hit or hit
+    if not any_hit:
+        rep.ok(rule, {"file": "-", "line": 0, "function": "(analysed functions)", "construct": "in-place stores"},
+               "%d in-place stores seen by the symbolic interpreters; none goes into an array whose dtype was inferred from run-time data" % total)
